@@ -71,6 +71,11 @@ declare -A DEMO=(
  [C03d_arith_assign_local_scope]="-p yash-semantics --test c03d_arith_assign_in_function"
  [C04d_range_ending_with_bracket]="-p yash-fnmatch -p yash-semantics --test c04d_range_ending_with_bracket"
  [C05d_glob_interrupted_by_any_signal]="-p yash-semantics --test c05d_glob_other_signal"
+ [C06d_redirected_word_as_function_name]="-p yash-syntax --test c06d_redirected_word_before_parens"
+ [C07d_export_p_array_attribute]="-p yash-builtin --test c07d_export_p_array"
+ [C08d_cmdsubst_interrupt_leaks_reader]="-p yash-semantics --test c08d_command_subst_interrupt"
+ [C09d_move_fd_internal_leaks_on_failure]="-p yash-env -p yash-builtin --test c09d_move_fd_internal --test c09d_dot_fd_exhaustion"
+ [C10d_errexit_skipped_without_command_name]="-p yash-semantics --test c10d_errexit_without_command_name"
  [C16c_readonly_local_in_function]="-p yash-builtin --test c16c_readonly_in_function"
  [C20c_kill_attached_sig_prefix]="-p yash-builtin --test c20c_kill_attached_signal"
 )
